@@ -7,7 +7,7 @@
    trace:  [iface, sd, media, ev]
    event:  [op, n, v, items, p, a, link, ck, ca, ua, err, exc, res, after, law, t0, t1,  (calls)
             plain, rawnames, lownames, lines, echo, echo1, now]                            (op = "emit")
-     after    resp.headers after the call, as <<name, value>> pairs (names case-folded by the harness)
+     after    resp.headers after a mutating call, as <<name, value>> pairs (names case-folded by the harness)
      law      what the trusted RFC decoder made of the text a codec helper produced:
               [cps, orig, ok, dec, dtype, deci, link]
      lines    the Set-Cookie lines the server received, parsed by the harness' RFC 6265 parser
@@ -45,7 +45,9 @@ VARIABLES tid, l, known, model, raw, jar, times, verdict, dnote
 vars == <<tid, l, known, model, raw, jar, times, verdict, dnote>>
 Known == known
 OnlyProperty  == {{}}
-AllDeviations == SUBSET {"M", "Z", "E", "Q", "C"}
+Deviations    == {"M", "Z", "E", "Q", "C"}
+OneDeviation  == {{d} : d \in Deviations}
+AllDeviations == SUBSET Deviations
 KStr(K) == (IF "M" \in K THEN "M" ELSE "") \o (IF "Z" \in K THEN "Z" ELSE "") \o (IF "E" \in K THEN "E" ELSE "")
            \o (IF "Q" \in K THEN "Q" ELSE "") \o (IF "C" \in K THEN "C" ELSE "")
 
@@ -130,7 +132,8 @@ CallVerdict ==
     ELSE IF Ev.err # ExpectErr THEN "P:setcookie-guard|" \o Ev.op
     ELSE IF Ev.res # ExpectRes THEN "P:readback|" \o Ev.op
     ELSE IF CodecCall /\ LawVerdict # "ok" THEN LawVerdict
-    ELSE IF ~NoDup(Ev.after) \/ PairsMap(Ev.after) # NewModel THEN "P:readback|headers-after-" \o Ev.op
+    ELSE IF Ev.op \notin {"get", "typed_get"} /\ (~NoDup(Ev.after) \/ PairsMap(Ev.after) # NewModel)
+         THEN "P:readback|headers-after-" \o Ev.op
     ELSE "ok"
 
 (* ---- emission ---- *)
@@ -156,7 +159,11 @@ AttrDiff(L, c) ==
     ELSE ""
 UnsetDiff(L, c) ==
     IF L.domain # c.domain THEN "domain" ELSE IF L.path # c.path THEN "path"
-    ELSE IF L.samesite # c.samesite THEN "samesite" ELSE ""
+    ELSE IF L.samesite # c.samesite THEN "samesite"
+    \* with "M" the judge follows the model of the code: what the earlier write left behind must be there
+    ELSE IF "M" \in Known /\ (L.hasmaxage # c.hasmaxage \/ (c.hasmaxage /\ L.maxage # c.maxage)) THEN "max-age"
+    ELSE IF "M" \in Known /\ (L.secure # c.secure \/ L.httponly # c.httponly \/ L.partitioned # c.partitioned) THEN "flags"
+    ELSE ""
 
 LineOf(rest, k) == rest[CHOOSE i \in 1..Len(rest) : rest[i].name = k]
 EchoOf(k) == IF \E i \in 1..Len(Ev.echo) : Ev.echo[i][1] = k
@@ -174,7 +181,8 @@ EmitVerdict ==
         one(k) == Cardinality({i \in 1..Len(rest) : rest[i].name = k}) = 1
         badattr == {k \in ks : one(k) /\ ~jar[k].unset /\ AttrDiff(LineOf(rest, k), jar[k]) # ""}
         badunsa == {k \in ks : one(k) /\ jar[k].unset /\ UnsetDiff(LineOf(rest, k), jar[k]) # ""}
-        badexp  == {k \in ks : one(k) /\ jar[k].unset /\
+        \* (with "M" a Max-Age left behind by an earlier set_cookie keeps the cookie alive: UnsetIsExpired fails in the model)
+        badexp  == {k \in ks : one(k) /\ jar[k].unset /\ ("M" \notin Known \/ UnsetIsExpired(jar[k])) /\
                       LET L == LineOf(rest, k) IN ~Expired(L.hasmaxage, L.maxage, L.hasexp, L.exp, Ev.now)}
         badecho == {k \in ks : ~jar[k].unset /\ (EchoOf(k) # <<EchoWant(jar[k].value)>> \/ Echo1Of(k) # <<EchoWant(jar[k].value)>>)}
     IN
@@ -222,5 +230,5 @@ Done ==
 
 Next == Step \/ Done
 Spec == Init /\ [][Next]_vars
-Sound == NoDup(<<>>)
+Sound == l >= -1
 ==========================================================================
